@@ -421,7 +421,35 @@ pub fn ep_case(rng: &mut Rng) -> RPos {
             }
         }
     }
-    far_king(rng, &mut p, them, k);
+    // the enemy king: far away, or lined up so that an en passant capture discovers a check on it
+    // (on the capture rank behind both pawns with our rook/queen on the other side; on a line
+    // through the captured pawn or through the capturer with our slider behind)
+    let mut enemy_king_placed = false;
+    if rng.chance(1, 3) {
+        let caps: Vec<i32> = [-1, 1].iter().map(|d| f + d).filter(|&x| on(x, r4) && p.sq[idx(x, r4)] == Some((us, Piece::Pawn))).collect();
+        if !caps.is_empty() {
+            let cf = *rng.pick(&caps);
+            // line through the captured pawn (or, one time in three, through the capturer)
+            let through = if rng.chance(1, 3) { idx(cf, r4) } else { pawn };
+            let (tf, tr) = fr(through);
+            let dirs: Vec<(i32, i32)> = KING_D.iter().copied().filter(|&(_, dr)| !(through == pawn && dr == 0 && false)).collect();
+            let &(df, dr) = rng.pick(&dirs);
+            let (n1, n2) = (rng.range(1, 6) as i32, rng.range(1, 6) as i32);
+            let (ks, ss) = ((tf + df * n1, tr + dr * n1), (tf - df * n2, tr - dr * n2));
+            if on(ks.0, ks.1) && on(ss.0, ss.1) {
+                let (ksq, ssq) = (idx(ks.0, ks.1), idx(ss.0, ss.1));
+                if p.sq[ksq].is_none() && p.sq[ssq].is_none() && !reserved.contains(&ksq) && !reserved.contains(&ssq) && !adjacent(ksq, k) {
+                    let diag = df != 0 && dr != 0;
+                    p.sq[ksq] = Some((them, Piece::King));
+                    p.sq[ssq] = Some((us, if rng.chance(1, 3) { Piece::Queen } else if diag { Piece::Bishop } else { Piece::Rook }));
+                    enemy_king_placed = true;
+                }
+            }
+        }
+    }
+    if !enemy_king_placed {
+        far_king(rng, &mut p, them, k);
+    }
     for _ in 0..rng.below(4) {
         let s = empty_sq(rng, &mut p);
         if reserved.contains(&s) && !rng.chance(1, 10) {
@@ -519,9 +547,10 @@ pub fn castle_case(rng: &mut Rng) -> RPos {
             p.sq[s] = Some((them, pc));
         }
     }
-    // the enemy king, sometimes near the back rank
+    // the enemy king, sometimes near or even on our back rank
     let bk_placed = if rng.chance(1, 6) {
-        let s = idx(rng.range(0, 7) as i32, br + 2 * fwd(us));
+        let on_back = rng.chance(1, 2);
+        let s = idx(rng.range(0, 7) as i32, if on_back { br } else { br + fwd(us) * rng.range(1, 2) as i32 });
         if p.sq[s].is_none() && !adjacent(s, k) {
             p.sq[s] = Some((them, Piece::King));
             true
@@ -892,4 +921,177 @@ pub fn few_movers_case(rng: &mut Rng) -> RPos {
         p.half = *rng.pick(&[99, 100]);
     }
     p
+}
+
+/// A right-carrying rook (with its king on the back rank) attacked by a piece of every kind of the
+/// side to move, king included, so that capturing it must remove the victim's right; often the
+/// capturer is itself a rook on its own right's square, or a pawn promoting by the capture.
+pub fn rook_right_capture_case(rng: &mut Rng) -> RPos {
+    let mut p = RPos::empty();
+    let us = rc(rng);
+    let them = other(us);
+    p.stm = us;
+    let vbr = rel_rank(them, 1);
+    let kf = rng.range(1, 6) as i32;
+    p.sq[idx(kf, vbr)] = Some((them, Piece::King));
+    let wing = rng.usize(2);
+    let rf = if wing == 0 { rng.range(kf as i64 + 1, 7) as i32 } else { rng.range(0, kf as i64 - 1) as i32 };
+    let rook = idx(rf, vbr);
+    p.sq[rook] = Some((them, Piece::Rook));
+    p.rights[ci(them)][wing] = Some(rf as u8);
+    // the other wing too, sometimes
+    if rng.chance(1, 2) {
+        let of = if wing == 0 { rng.range(0, kf as i64 - 1) as i32 } else { rng.range(kf as i64 + 1, 7) as i32 };
+        if p.sq[idx(of, vbr)].is_none() {
+            p.sq[idx(of, vbr)] = Some((them, Piece::Rook));
+            p.rights[ci(them)][1 - wing] = Some(of as u8);
+        }
+    }
+    let kind = *rng.pick(&[Piece::King, Piece::King, Piece::Queen, Piece::Rook, Piece::Bishop, Piece::Knight, Piece::Pawn]);
+    let d = fwd(us);
+    let mut our_king_placed = false;
+    let att: Option<usize> = match kind {
+        Piece::King => {
+            let cands: Vec<usize> = KING_D.iter().map(|&(df, dr)| (rf + df, vbr + dr)).filter(|&(x, y)| on(x, y) && p.sq[idx(x, y)].is_none()).map(|(x, y)| idx(x, y)).collect();
+            let cands: Vec<usize> = cands.into_iter().filter(|&s| !adjacent(s, idx(kf, vbr))).collect();
+            if cands.is_empty() {
+                None
+            } else {
+                our_king_placed = true;
+                Some(*rng.pick(&cands))
+            }
+        }
+        Piece::Knight => {
+            let cands: Vec<usize> = KNIGHT_D.iter().map(|&(df, dr)| (rf + df, vbr + dr)).filter(|&(x, y)| on(x, y) && p.sq[idx(x, y)].is_none()).map(|(x, y)| idx(x, y)).collect();
+            if cands.is_empty() {
+                None
+            } else {
+                Some(*rng.pick(&cands))
+            }
+        }
+        Piece::Pawn => {
+            // a pawn of ours one rank before the victim's back rank, on an adjacent file
+            let df = if rng.chance(1, 2) { 1 } else { -1 };
+            let (x, y) = (rf + df, vbr - d);
+            if on(x, y) && p.sq[idx(x, y)].is_none() {
+                Some(idx(x, y))
+            } else {
+                None
+            }
+        }
+        _ => {
+            let dirs: Vec<(i32, i32)> = match kind {
+                Piece::Rook => ROOK_D.to_vec(),
+                Piece::Bishop => BISHOP_D.to_vec(),
+                _ => KING_D.to_vec(),
+            };
+            let &(df, dr) = rng.pick(&dirs);
+            let n = rng.range(1, 7) as i32;
+            let (x, y) = (rf + df * n, vbr + dr * n);
+            if on(x, y) && p.sq[idx(x, y)].is_none() {
+                // the line must be clear
+                let clear = (1..n).all(|i| p.sq[idx(rf + df * i, vbr + dr * i)].is_none());
+                if clear {
+                    Some(idx(x, y))
+                } else {
+                    None
+                }
+            } else {
+                None
+            }
+        }
+    };
+    if let Some(a) = att {
+        p.sq[a] = Some((us, kind));
+        // a rook capturer on its own right's square
+        if kind == Piece::Rook {
+            let (af, ar) = fr(a);
+            if ar == rel_rank(us, 1) {
+                let okf = (0..8).filter(|&x| x != af && p.sq[idx(x, ar)].is_none()).collect::<Vec<i32>>();
+                if !okf.is_empty() {
+                    let mykf = *rng.pick(&okf);
+                    p.sq[idx(mykf, ar)] = Some((us, Piece::King));
+                    p.rights[ci(us)][if af > mykf { 0 } else { 1 }] = Some(af as u8);
+                    our_king_placed = true;
+                }
+            }
+        }
+    }
+    if !our_king_placed {
+        far_king(rng, &mut p, us, idx(kf, vbr));
+    }
+    for _ in 0..rng.below(4) {
+        let s = empty_sq(rng, &mut p);
+        let (_, r) = fr(s);
+        let mut pc = *rng.pick(&NONKING);
+        if pc == Piece::Pawn && (r == 0 || r == 7) {
+            pc = Piece::Knight;
+        }
+        p.sq[s] = Some((rc(rng), pc));
+    }
+    random_clocks(rng, &mut p, false);
+    p
+}
+
+/// Position *before* a double pawn push that uncovers a check from a slider standing behind the
+/// pawn's origin square (along the pusher's second rank or a diagonal), together with the push.
+/// Playing the push gives a reachable-style position with an EP file and a discovered (sometimes
+/// double) check. Returns (position before, from, to).
+pub fn ep_discovery_case(rng: &mut Rng) -> Option<(RPos, usize, usize)> {
+    let mut p = RPos::empty();
+    let us = rc(rng); // the side that pushes
+    let them = other(us);
+    p.stm = us;
+    let f = rng.range(0, 7) as i32;
+    let r2 = rel_rank(us, 2);
+    let origin = idx(f, r2);
+    let d = fwd(us);
+    let (s1, s2) = (idx(f, r2 + d), idx(f, r2 + 2 * d));
+    p.sq[origin] = Some((us, Piece::Pawn));
+    // line through the origin: along the rank or a diagonal
+    let dirs: [(i32, i32); 6] = [(1, 0), (-1, 0), (1, 1), (1, -1), (-1, 1), (-1, -1)];
+    let &(df, dr) = rng.pick(&dirs);
+    let (n1, n2) = (rng.range(1, 6) as i32, rng.range(1, 6) as i32);
+    let (kx, ky) = (f + df * n1, r2 + dr * n1);
+    let (sx, sy) = (f - df * n2, r2 - dr * n2);
+    if !on(kx, ky) || !on(sx, sy) {
+        return None;
+    }
+    let (ksq, ssq) = (idx(kx, ky), idx(sx, sy));
+    if ksq == s1 || ksq == s2 || ssq == s1 || ssq == s2 {
+        return None;
+    }
+    p.sq[ksq] = Some((them, Piece::King));
+    let diag = df != 0 && dr != 0;
+    p.sq[ssq] = Some((us, if rng.chance(1, 3) { Piece::Queen } else if diag { Piece::Bishop } else { Piece::Rook }));
+    // our own king somewhere safe
+    far_king(rng, &mut p, us, ksq);
+    // capturers for the EP file, sometimes
+    for dfc in [-1, 1] {
+        if on(f + dfc, r2 + 2 * d) && rng.chance(1, 2) {
+            let c = idx(f + dfc, r2 + 2 * d);
+            if p.sq[c].is_none() {
+                p.sq[c] = Some((them, Piece::Pawn));
+            }
+        }
+    }
+    for _ in 0..rng.below(4) {
+        let s = empty_sq(rng, &mut p);
+        if s == s1 || s == s2 {
+            continue;
+        }
+        // keep the discovery line clear
+        let (x, y) = fr(s);
+        let on_line = (1..8).any(|i| (f + df * i, r2 + dr * i) == (x, y) || (f - df * i, r2 - dr * i) == (x, y));
+        if on_line {
+            continue;
+        }
+        let mut pc = *rng.pick(&NONKING);
+        if pc == Piece::Pawn && (y == 0 || y == 7) {
+            pc = Piece::Knight;
+        }
+        p.sq[s] = Some((rc(rng), pc));
+    }
+    random_clocks(rng, &mut p, false);
+    Some((p, origin, s2))
 }
